@@ -215,6 +215,10 @@ pub fn vmap(name: &str, w: u32, sym: u32, sigma_hint: u32) -> u128 {
         "hbiglast17" => if sym + 1 == sigma_hint { (1u128 << 17) + 5 } else { sym as u128 }.min(max),
         "hbigfirst20" => if sym == 0 { (1u128 << 20) + 1 } else { sym as u128 }.min(max),
         "hbiglast20" => if sym + 1 == sigma_hint { (1u128 << 20) + 1 } else { sym as u128 }.min(max),
+        // values that are each other's multiples of 4 (a tree over 4x has the digits of x one level further up)
+        "quad4" => pick([0, 1, 4, 16, 5]),
+        // one small symbol and otherwise symbols that are large multiples of 2^16 (a key that packs symbol and count)
+        "hscale16" => if sym == 0 { 5 } else { ((45 + sym as u128) << 16).min(max) },
         "hrev" => (sigma_hint.saturating_sub(1).saturating_sub(sym) as u128).min(max),
         "hgap" => ((sym as u128) * 3 + 1).min(max),
         // spread sigma symbols evenly over the value range of the type (keeps order)
